@@ -77,7 +77,8 @@ impl Vector {
             return false;
         }
         for i in 0..self.len() {
-            if rel_diff(self[i], other[i]) > tol {
+            // rel_diff only compares magnitudes, so values of opposite sign are checked first
+            if self[i] * other[i] < 0. || rel_diff(self[i], other[i]) > tol {
                 return false;
             }
         }
